@@ -596,6 +596,9 @@ func TestC01(t *testing.T) {
 			r.Violation(key, msg, map[string]any{"lane": "broadcast with shared pre-encoded options", "case": i, "seed": r.Seed, "lane_no": r.Lane})
 		}
 	}
+	// a case that has not ended after a minute of real time (normal: milliseconds) is examined for a
+	// goroutine spinning in library code (rep.Guard)
+	r.Guard(60 * time.Second)
 	n := r.N(700, 40000)
 	for i := 0; i < n; i++ {
 		if !r.Only(i) {
@@ -612,7 +615,9 @@ func TestC01(t *testing.T) {
 			}
 		}
 		c.Seed = fmt.Sprintf("seed=%d lane=%d case=%d", r.Seed, r.Lane, i)
+		r.Begin(fmt.Sprint(i), c)
 		key, msg, stats := runC01(c, rng, r)
+		r.End(fmt.Sprint(i))
 		r.Case(c01Sig(c), stats["messages_received"] > 0)
 		for k, v := range stats {
 			r.Obs(k, v)
